@@ -1,5 +1,5 @@
 From Coq Require Import ExtrOcamlBasic.
-From Draco Require Import Base.DriverSupport Model.Varint Model.RansSymbol Model.RansFloat Model.SymbolCoding Model.RansBound.
+From Draco Require Import Base.DriverSupport Model.Varint Model.RansSymbol Model.RansFloat Model.SymbolCoding Model.RansBound Model.SymbolPolicy.
 Extraction "m.ml" ds_api rans_precision_bits enc_symbols auto_method_ok dec_symbols create_f64 rans_encode_with enc_table
-  rans_decode_symbols rans_encode_syms rans_write_init rans_block rans_area_used rans_reserved ebits_check ebits_window
-  with_cum arr_of_list zlen.
+  rans_decode_symbols rans_encode_syms rans_write_init rans_block rans_area_used rans_reserved ebits_report
+  with_cum arr_of_list zlen enc_symbols_with default_raw_bit_length.
